@@ -211,30 +211,44 @@ Theorem C13_component_independent : forall (Phi PhiInv pow15 : Q -> Q) m yshape 
 Proof. exact bootstrap_ci_bcx_component. Qed.
 Print Assumptions C13_component_independent.
 
-(* ... but whether the call succeeds is NOT decided per component: bc/bca raise ValueError for the whole array
-   exactly when some component raises, and a component raises when it has no finite replicate.  So one all-NaN
-   component destroys the limits of every other component (the quantile method returns NaN for that component
-   only).  Faithful model => refutation of "computed independently per metric component" at full strength. *)
+(* ... and (after fix fa251ac) the call always succeeds, so component independence is unconditional: under
+   0 <= Phi <= 1 a bc/bca call returns an array of shape metric_shape+(2,), every entry being the one-component
+   computation on its own column and estimate; a component without a finite replicate gets (NaN, NaN) and does
+   not affect the others. *)
+Theorem C13_component_independent_total : forall (Phi PhiInv pow15 : Q -> Q),
+  (forall x, 0 <= Phi x /\ Phi x <= 1) ->
+  forall m yshape rows hs alpha,
+  m <> MQuantile -> length hs = prod_shape yshape ->
+  exists data, bootstrap_ci_bcx Phi PhiInv pow15 m yshape rows (Some hs) alpha = Ok (yshape ++ [2%nat], data) /\
+    length data = prod_shape (yshape ++ [2%nat]) /\
+    forall j, (j < prod_shape yshape)%nat ->
+      ci_col Phi PhiInv pow15 m (column rows j) (nth j hs None) alpha = Ok (nth (j * 2 + 0) data None, nth (j * 2 + 1) data None).
+Proof. exact bootstrap_ci_bcx_total. Qed.
+Print Assumptions C13_component_independent_total.
+Theorem C13_all_nan_component_nan : forall (Phi PhiInv pow15 : Q -> Q) m col th alpha,
+  m <> MQuantile -> somes col = [] -> ci_col Phi PhiInv pow15 m col th alpha = Ok (None, None).
+Proof. exact ci_col_bcx_nan. Qed.
+Print Assumptions C13_all_nan_component_nan.
+(* one component: never an exception; the limits are NaN exactly when there is no finite replicate *)
+Theorem C13_component_total : forall (Phi PhiInv pow15 : Q -> Q),
+  (forall x, 0 <= Phi x /\ Phi x <= 1) ->
+  forall m col th alpha, m <> MQuantile ->
+  exists lo hi, ci_col Phi PhiInv pow15 m col th alpha = Ok (lo, hi) /\
+    (lo = None <-> somes col = []) /\ (hi = None <-> somes col = []).
+Proof. exact ci_col_bcx_total. Qed.
+Print Assumptions C13_component_total.
+(* the array call can only raise if some component's own computation raises (which the previous theorem excludes) *)
 Theorem C13_array_raises_iff : forall (Phi PhiInv pow15 : Q -> Q) m yshape rows hs alpha,
   m <> MQuantile ->
   (bootstrap_ci_bcx Phi PhiInv pow15 m yshape rows (Some hs) alpha = Err <->
    exists c h, In (c, h) (combine (columns rows (prod_shape yshape)) hs) /\ ci_col Phi PhiInv pow15 m c h alpha = Err).
 Proof. exact bootstrap_ci_bcx_err. Qed.
 Print Assumptions C13_array_raises_iff.
-Theorem C13_all_nan_component_raises : forall (Phi PhiInv pow15 : Q -> Q) m col th alpha,
-  m <> MQuantile -> somes col = [] -> ci_col Phi PhiInv pow15 m col th alpha = Err.
-Proof. exact ci_col_bcx_err. Qed.
-Print Assumptions C13_all_nan_component_raises.
-Theorem C13_component_independent_refuted : forall (Phi PhiInv pow15 : Q -> Q),
-  exists rows hs alpha,
-    ci_col Phi PhiInv pow15 MBc (column rows 0) (nth 0 hs None) alpha = Ok (Some 2, Some 2) /\
-    bootstrap_ci_bcx Phi PhiInv pow15 MBc [2%nat] rows (Some hs) alpha = Err /\
-    exists d, bootstrap_ci_quantile [2%nat] rows [] [alpha] = Ok ([2%nat; 2%nat], d).
-Proof.
-  intros. exists [[Some 1; None]; [Some 2; None]], [Some 5; Some 5], (1#10).
-  repeat split; try reflexivity. eexists. reflexivity.
-Qed.
-Print Assumptions C13_component_independent_refuted.
+(* concrete instance: an all-NaN second component next to a finite first one, method bc *)
+Example C13_all_nan_component_example : forall (Phi PhiInv pow15 : Q -> Q),
+  bootstrap_ci_bcx Phi PhiInv pow15 MBc [2%nat] [[Some 1; None]; [Some 2; None]] (Some [Some 5; Some 5]) (1#10)
+  = Ok ([2%nat; 2%nat], [nanquantile [Some 1; Some 2] 1; nanquantile [Some 1; Some 2] 1; None; None]).
+Proof. intros. reflexivity. Qed.
 
 (* shape metric_shape + alpha_shape + (2,) and as many entries *)
 Theorem C13_shape : forall (Phi PhiInv pow15 : Q -> Q) yshape rows hats al m sh data,
@@ -244,17 +258,12 @@ Theorem C13_shape : forall (Phi PhiInv pow15 : Q -> Q) yshape rows hats al m sh 
 Proof. exact bootstrap_ci_shape. Qed.
 Print Assumptions C13_shape.
 
-(* integer replicates with an integer estimate: the bca branch raises (np.divide into an integer buffer), while the
-   same values as floats give limits.  Faithful model => "agreement with the documented formula is claimed
-   everywhere" is refuted for integer-typed input (e.g. count-valued metrics) with method bca. *)
-Theorem C13_int_bca_refuted : forall (Phi PhiInv pow15 : Q -> Q),
-  (forall x, 0 <= Phi x /\ Phi x <= 1) ->
-  exists rows hs alpha,
-    bootstrap_ci_dt Phi PhiInv pow15 DInt [] rows (Some hs) (AScalar alpha) MBca = Err /\
-    (exists d, bootstrap_ci_dt Phi PhiInv pow15 DFloat [] rows (Some hs) (AScalar alpha) MBca = Ok ([2%nat], d)) /\
-    (exists d, bootstrap_ci_dt Phi PhiInv pow15 DInt [] rows (Some hs) (AScalar alpha) MBc = Ok ([2%nat], d)).
-Proof. exact int_bca_refuted. Qed.
-Print Assumptions C13_int_bca_refuted.
+(* integer-typed replicates and estimate (after fix 4a7af20): treated exactly like the same values as floats, for
+   every method; so formula agreement holds for count-valued metrics too *)
+Theorem C13_int_dtype_same : forall (Phi PhiInv pow15 : Q -> Q) dt yshape rows hats al m,
+  bootstrap_ci_dt Phi PhiInv pow15 dt yshape rows hats al m = bootstrap_ci Phi PhiInv pow15 yshape rows hats al m.
+Proof. exact int_dtype_same. Qed.
+Print Assumptions C13_int_dtype_same.
 
 (* ---------------- non-vacuity ---------------- *)
 (* a concrete oracle instance satisfying every hypothesis used above (piecewise-linear cdf, linear ppf,
